@@ -120,11 +120,11 @@ PROPS = {
     'C18': dict(engine='sig_check', level='translation_validation', comps=[],
         theorems=['C18_send', 'C18_sync', 'C18_send_exact', 'C18_sync_exact', 'C18_not_auto', 'C18_manual_impls', 'C18_borrow', 'C18_borrow_nonvacuous']),
     'C19': dict(
-        comps=['ro'], static='c19',
+        comps=['ro', 'ro_step'], static='c19',
         theorems=['C19_model_readonly', 'C19_clone_source_untouched', 'C19_static_no_write'],
         assumptions=['thread scheduling is not modelled; the schedules quantifier is discharged by "the heap is constant under every &self operation"',
                      'the static call graph is a syntactic over-approximation produced by the syn translator (sound for the idioms it recognises; anything unrecognised counts as a write)',
-                     'clone: writes into the new cache through source-derived handles are not covered statically (Gen/README.md clone_residual); covered by the fingerprint of the source before/after clone (flag oth)'],
+                     'clone: writes into the new cache through source-derived handles are not covered statically (Gen/README.md clone_residual); covered by the fingerprint of the source before/after clone (flag oth)', 'ro_step: for every &self operation executed as a step (peek, peek_entry, contains, peek_lru, peek_mru, iter, Debug, the scalar getters, and clone with respect to its source) the structural fingerprint of the receiver (every address, link, recorded size, token, scalar and bucket) is compared before and after, also when the operation unwinds from an injected panic in Hash / Eq / Clone'],
         trusted_extra=['sigdump (syn 2 translator of /repo/src into coq/Gen/Sigs.v)'],
         comps_any=['oth'],
     ),
